@@ -231,6 +231,15 @@ OPS = {
     'compress_axis': ('keep', lambda c, a, b, L: a.compress_axis(c.nparray([True, False], kind='b'), axis='y')),
     'dropna': ('keep', lambda c, a, b, L: a.dropna(axis='x')),
     'interp_axis': ('keep', lambda c, a, b, L: a.interp_axis([L['x'][0] + 0.5], axis='x')),
+    'interp_axis-own-labels': ('keep', lambda c, a, b, L: a.interp_axis([L['x'][0], L['x'][1]], axis='x')),
+    'interp_axis-own-labels-array': ('keep', lambda c, a, b, L: a.interp_axis(a.axes['x'].values, axis='x')),
+    'interp_like-self': ('keep', lambda c, a, b, L: a.interp_like(a)),
+    'reindex_axis-own-labels': ('keep', lambda c, a, b, L: a.reindex_axis(a.axes['x'].values, axis='x')),
+    'reindex_like-self': ('keep', lambda c, a, b, L: a.reindex_like(a)),
+    'sort_axis-sorted': ('keep', lambda c, a, b, L: a.sort_axis(axis='x').sort_axis(axis='x')),
+    'take-everything': ('keep', lambda c, a, b, L: a[:, :]),
+    'transpose-identity': ('keep', lambda c, a, b, L: a.transpose('x', 'y')),
+    'squeeze-nothing': ('keep', lambda c, a, b, L: a.squeeze()),
     'interp_axis-1d': ('keep', lambda c, a, b, L: a[:, L['y'][0]].interp_axis([L['x'][0] + 0.5], axis='x')),
     'arith-add': ('drop', lambda c, a, b, L: a + b),
     'arith-scalar': ('drop', lambda c, a, b, L: a * 2),
@@ -243,6 +252,10 @@ OPS = {
     'ndarray-left-add': ('drop-real', lambda c, a, b, L: c.nparray([1.0, 2.0, 3.0, 4.0], [2, 2], kind='f') + a),
     'ndarray-left-lt': ('drop-real', lambda c, a, b, L: c.nparray([1.0, 2.0, 3.0, 4.0], [2, 2], kind='f') < a),
     'values-plus-array': ('drop-real', lambda c, a, b, L: a.values + a),
+    'concatenate-single': ('drop', lambda c, a, b, L: c.da.concatenate([a], axis='y')),
+    'concatenate-single-tuple': ('drop', lambda c, a, b, L: c.da.concatenate((a,), axis=0)),
+    'stack-single': ('drop', lambda c, a, b, L: c.da.stack([a], axis='k')),
+    'concatenate-three': ('drop', lambda c, a, b, L: c.da.concatenate([a, a, a], axis='x')),
     'stack': ('drop', lambda c, a, b, L: c.da.stack([a, a], axis='k')),
     'concatenate': ('drop', lambda c, a, b, L: c.da.concatenate([a, a], axis='y')),
     'stack-align': ('drop', lambda c, a, b, L: c.da.stack([a, b], axis='k', align=True)),
